@@ -385,7 +385,7 @@ K("A2.span_extract_bounded", ["C10"], SPAN, "check_span_extract_bounded", "Span:
   "inclusive box tests per cell", kind="bounded", bound="spans of 3 cells", timeout=600)
 
 FTREE = "buffer/fragment_buffer/fragment_tree.rs"
-B("C16.enclose_tags", ["C16", "C10", "C09"], FTREE, "bounded_enclose_tags",
+B("C16.enclose_tags", ["C16", "C10", "C09", "C04"], FTREE, "bounded_enclose_tags",
   "FragmentTree::enclose_fragments / enclose_recursive / second_pass_enclose / enclose_deep_first / Fragment::as_css_tag / can_fit (real bodies)",
   "a tag inside a rectangle or circle adds its names to the innermost enclosing shape and is not rendered; inside no shape it stays text; "
   "malformed tags and other text are rendered once, unaffected; every fragment occurs exactly once in the forest (also with overlapping, non-nested shapes)",
@@ -400,7 +400,7 @@ B("C16.legend_grammar", ["C16"], UTIL, "bounded_legend_grammar", "parser::parse_
 B("C17.legend_cut_line_endings", ["C16", "C17", "C01"], CB, "bounded_legend_cut_and_line_endings", "From<&str> for CellBuffer / parse_css_legend / legend_css",
   "the legend is never drawn, the drawing before it is untouched, the rules come out in order, and CRLF input gives the same cells and rules as LF",
   "6 drawings (incl. box-drawing and wide characters) x 5 legends (incl. blank lines inside) x 4 trailing-blank variants x {LF, CRLF}")
-B("C16.tag_grammar", ["C16", "C08"], UTIL, "bounded_tag_grammar", "parser::parse_css_tag", "'{ident(,ident)*}' accepted with its names; 12 malformed variants rejected", "5 + 13 strings")
+B("C16.tag_grammar", ["C16", "C08", "C04"], UTIL, "bounded_tag_grammar", "parser::parse_css_tag", "'{ident(,ident)*}' accepted with its names only when it is the whole text; malformed variants and labels that merely start with a tag rejected", "5 + 17 strings")
 B("T6.string_and_cell_buffer", ["C04", "C17", "C10"], CB, "bounded_string_and_cell_buffer", "From<&str> for StringBuffer / From<StringBuffer> for CellBuffer",
   "cells = the non-blank characters at the column where their display columns start (wide = 2 columns); LF/CRLF, trailing blanks and blank lines add nothing",
   "first row: all strings of <= 4 (thorough 5) tokens over {a, e-acute, wide CJK, space, -, TAB} x 3 second rows x {LF, CRLF} x 4 trailing-blank variants")
